@@ -3,22 +3,31 @@
    The harness drives a real Netlist / Die pair through a sequence of operations and reads
    back, after every operation, every module (name, flags, area, centre, rectangles, and
    whether rectangle 0's centre object is the module's centre object) and whether the call
-   raised; for an allocation also the result.  The checker threads the model's state: after
-   every operation it must equal the observed one exactly; the result of every allocation
+   raised; for an allocation also the result.  The checker threads the state: after every
+   operation the model's new state must equal the observed one (values exactly; see [hmod_eqb]
+   for the two things the property leaves open) and the replay continues from the observed
+   state; the result of every allocation
    must agree with [initial_allocation] of the state it was computed from (same comparators
    as the single-call correspondence, Cases/CmpC03.v). *)
 From FrameModel Require Import Num.QcTac Geometry.Rect Cases.Cmp Alloc.Alloc Alloc.Initial
-  Alloc.InitialFacts Alloc.InitialHist Cases.CmpC03.
+  Alloc.InitialFacts Alloc.InitialHist Cases.CmpC03 Stog.CreateStog Stog.StogFacts Stog.StogPost.
 Open Scope list_scope.
 Open Scope Qc_scope.
 
-Definition hmod_eqb (a b : hmod) : bool :=
+(* [strict]: rectangles in the same order with the same roles; otherwise (after Module.create_stog,
+   whose choice among several valid trunks property C03 does not constrain) the same rectangles up
+   to order and roles.  Whether rectangle 0 shares its centre object with the module is NOT
+   compared: it is read back from the implementation after every operation and the model continues
+   from the observed value (the property does not fix the aliasing; the model only says what an
+   in-place write means when the objects are shared). *)
+Definition hmod_eqb (strict : bool) (a b : hmod) : bool :=
   String.eqb (mname (hbase a)) (mname (hbase b)) &&
   Bool.eqb (mfixed (hbase a)) (mfixed (hbase b)) && Bool.eqb (mhard (hbase a)) (mhard (hbase b)) &&
   Qceqb (marea (hbase a)) (marea (hbase b)) &&
   opt_eqb (pair_eqb Qceqb Qceqb) (mcenter (hbase a)) (mcenter (hbase b)) &&
-  list_eqb rect_eqb (mrects (hbase a)) (mrects (hbase b)) &&
-  Bool.eqb (hshared a) (hshared b).
+  (if strict then list_eqb rect_eqb (mrects (hbase a)) (mrects (hbase b))
+   else perm_eqb (mrects (hbase a)) (mrects (hbase b))).
+Definition is_restog (op : nop) : bool := match op with NCreateStog _ => true | _ => false end.
 
 Inductive nobs :=
   | NOAccept (ks : list Z) (cells : list cell)
@@ -33,7 +42,7 @@ Fixpoint nhist_check (sqrt_o : Qc -> Qc) (feps ceps aeps seps saeps : Qc) (R Fx 
   | [] => true
   | (op, raised, o, post) :: rest =>
       let res := apply_nop sqrt_o feps ceps aeps seps saeps R Fx ms op in
-      Bool.eqb (snd res) raised && list_eqb hmod_eqb (fst res) post &&
+      Bool.eqb (snd res) raised && list_eqb (hmod_eqb (negb (is_restog op))) (fst res) post &&
       match op, o with
       | NAlloc inc0, NOAccept ks cells =>
           agree_accept ks (alloc_result sqrt_o feps ceps aeps R Fx inc0 ms) cells
@@ -42,7 +51,7 @@ Fixpoint nhist_check (sqrt_o : Qc -> Qc) (feps ceps aeps seps saeps : Qc) (R Fx 
       | _, NONone => true
       | _, _ => false
       end &&
-      nhist_check sqrt_o feps ceps aeps seps saeps R Fx (fst res) rest
+      nhist_check sqrt_o feps ceps aeps seps saeps R Fx post rest
   end.
 
 (* non-vacuity (the state of Alloc/InitialFacts.v, Module Ex): allocate; the allocation has given
